@@ -175,3 +175,47 @@ func (m *Machine) symMatch(re *regexp.Regexp, s Str, what string) Value {
 	m.stubs["model:regexp match on symbolic ASCII bytes = automaton of regexp/syntax's compiled program as one Boolean term"]++
 	return t
 }
+
+// symReplaceClass: ReplaceAllString for a pattern whose compiled program is a single rune instruction followed
+// by match (one character class / one literal), replacement = one plain byte, subject = symbolic ASCII bytes.
+func (m *Machine) symReplaceClass(re *regexp.Regexp, s Str, repl byte) (Str, bool) {
+	parsed, err := syntax.Parse(re.String(), syntax.Perl)
+	if err != nil {
+		return Str{}, false
+	}
+	prog, err := syntax.Compile(parsed.Simplify())
+	if err != nil {
+		return Str{}, false
+	}
+	var runeInst *syntax.Inst
+	n := 0
+	for i := range prog.Inst {
+		switch prog.Inst[i].Op {
+		case syntax.InstRune, syntax.InstRune1, syntax.InstRuneAny, syntax.InstRuneAnyNotNL:
+			runeInst = &prog.Inst[i]
+			n++
+		case syntax.InstMatch, syntax.InstFail, syntax.InstNop, syntax.InstCapture:
+		default:
+			return Str{}, false
+		}
+	}
+	if n != 1 {
+		return Str{}, false
+	}
+	bs := s.Bytes()
+	out := make([]*Term, len(bs))
+	for i, b := range bs {
+		if !b.IsConst() && !m.decide(BVCmp(OpBVUlt, b, BV(8, 0x80))) {
+			m.unsupported("Regexp.ReplaceAllString with a symbolic non-ASCII byte")
+		}
+		if b.IsConst() && b.C >= 0x80 {
+			return Str{}, false
+		}
+		out[i] = Ite(runeClassTerm(runeInst, b), BV(8, uint64(repl)), b)
+	}
+	m.stubs["model:regexp ReplaceAllString of a one-class pattern by one byte = byte-wise ite"]++
+	if len(out) == 0 {
+		return Str{}, true
+	}
+	return StrFromTerms(out), true
+}
